@@ -194,6 +194,9 @@ package peering
 //@ func LinkBase.assignSwitchLabel
 //@   requires link != nil
 //@   ensures label-assigned [C04,C16]: result == nil ==> link.switchLabel != 0
+// Closing the link to a peer unregisters that very link, not whatever is registered for the peer by then.
+//@ func Peering.CloseLink
+//@   callsite Peering.RemoveLink only-the-link-that-was-closed [C16]: arg1 == link
 //@ func LinkBase.setupWorker
 //@   requires link != nil
 //@   callsite Peering.AddLink only-after-complete-handshake [C04]: peeringState != nil && peeringState.step == 4 && peeringState.session != nil && link.peer == peeringState.session.address.IP && link.encSession != nil
